@@ -148,6 +148,7 @@ impl Director {
                 return DriveEnd::Done;
             }
             if self.sched.steps() > self.max_steps {
+                self.sched.note_step_limit();
                 return DriveEnd::StepLimit;
             }
             let ready = self.sched.ready_len();
@@ -205,6 +206,15 @@ pub fn finish<E>(
     harness_error: Option<String>,
 ) -> (CaseResult, Vec<String>) {
     let h = hist.lock().unwrap();
+    // A director ran out of its step budget: the run was cut short.  What was observed counts
+    // (violations stand), what was still in progress gets no verdict - in particular tasks which
+    // are still alive are not a harness problem then.
+    let cut_short = sched.step_limit_hit();
+    let mut probes = h.probes.clone();
+    if cut_short {
+        *probes.entry("step_budget_exhausted".into()).or_default() += 1;
+    }
+    let harness_error = if cut_short { None } else { harness_error };
     (
         CaseResult {
             seed,
@@ -216,7 +226,7 @@ pub fn finish<E>(
             sim_ms: (sim_ns / 1_000_000) as u64,
             nontrivial,
             faults: h.faults.clone(),
-            probes: h.probes.clone(),
+            probes,
             abstract_states: states,
             violations: h.violations.clone(),
             panics: vec![],
@@ -254,7 +264,7 @@ fn run_case_inner(mode: &str, seed: u64, keep_log: bool) -> (CaseResult, Vec<Str
     res.panics = kit::panics::take();
     if let Err(e) = rt {
         // Tasks stuck because of the very violation that was recorded are not a harness problem.
-        if res.violations.is_empty() {
+        if res.violations.is_empty() && !res.probes.contains_key("step_budget_exhausted") {
             res.harness_error.get_or_insert(e);
         }
     }
